@@ -20,3 +20,9 @@ func init() {
 		"rsmcheck/payload: the decode step of the apply path (rsm.StateMachine, per-entry and batched) for plain, encoded and Snappy-encoded entries; the command bytes reaching the user state machine are compared with the proposed payloads",
 	}, Stage{Engine: "rsmcheck", Mode: "payload", BatchesQ: 16, BatchesT: 32, Par: 16, TimeoutQ: 600, TimeoutT: 3600})
 }
+
+func init() {
+	addStages("C11", "exploration", []string{
+		"E5 twins stage registered for C11 (delivery clauses below the node: a replica that restarts from its own snapshot, installs a file snapshot or is streamed one must have been delivered - through the snapshot or through Update, never both, never neither - exactly the committed entries; an on-disk state machine is never handed an entry at or below the index it returned from Open)",
+	}, Stage{Engine: "rsmcheck", Mode: "twins", BatchesQ: 16, BatchesT: 64, Par: 16, TimeoutQ: 600, TimeoutT: 3600})
+}
